@@ -31,6 +31,7 @@ type dlMsg struct {
 	Pre    int    `json:"pre"`    // attempts already made (dequeue+nack rounds before the dispatcher starts)
 	Kind   string `json:"kind"`   // status net timeout policy policy_wrapped other
 	Code   int    `json:"code"`
+	Detour string `json:"detour"` // "" | dead-requeue | cancel-resume | cancel-requeue: the message left the active set and was brought back by the operator before the dispatcher starts
 }
 
 type dlCase struct {
@@ -42,6 +43,7 @@ type dlCase struct {
 	BaseNs      int64   `json:"base_ns"`
 	CapNs       int64   `json:"cap_ns"`
 	StopAt      int     `json:"stop_at"` // Drain is called during the StopAt-th Deliver call (0-based); -1 = after everything settled
+	Warmup      int     `json:"warmup"`  // messages enqueued, leased and acked through the store while the detoured messages are out of the active set
 	Messages    []dlMsg `json:"messages"`
 }
 
@@ -211,7 +213,8 @@ func dispatchStop(in []byte) (any, error) {
 
 func dlRunCase(dir string, idx int, c dlCase) (out dlOut) {
 	clk := &c06Clock{t: time.Unix(0, 1790000000000000000).UTC()}
-	base, closer, err := c06OpenStore(c.Backend, dir, fmt.Sprintf("dl-%d-%d", os.Getpid(), idx), clk, true)
+	// with warm-up traffic: no delivered retention, so that acked messages really leave the store (the memory store compacts its order log then)
+	base, closer, err := c06OpenStore(c.Backend, dir, fmt.Sprintf("dl-%d-%d", os.Getpid(), idx), clk, c.Warmup == 0)
 	if err != nil {
 		out.Err = err.Error()
 		return
@@ -226,7 +229,78 @@ func dlRunCase(dir string, idx int, c dlCase) (out dlOut) {
 	const park = 10 * time.Second
 	t0 := clk.Now()
 	script := map[string]dlMsg{}
+	// detours first: the message is dead-lettered / canceled, traffic flows (the memory store compacts its order log after 1024
+	// entries), then the operator brings it back
+	var detoured []dlMsg
 	for _, m := range c.Messages {
+		if m.Detour == "" {
+			continue
+		}
+		url := "http://elsewhere.invalid/h"
+		if m.Target >= 0 && m.Target < len(targets) {
+			url = targets[m.Target].URL
+		}
+		if err := base.Enqueue(queue.Envelope{ID: m.ID, Route: "/r", Target: url, Payload: []byte("p")}); err != nil {
+			out.Err = "enqueue: " + err.Error()
+			return
+		}
+		if m.Detour == "dead-requeue" {
+			resp, err := base.Dequeue(queue.DequeueRequest{Route: "/r", Batch: 1, LeaseTTL: time.Minute})
+			if err != nil || len(resp.Items) != 1 || resp.Items[0].ID != m.ID {
+				out.Err = "detour dequeue of " + m.ID + " failed"
+				return
+			}
+			if err := base.MarkDead(resp.Items[0].LeaseID, "boom"); err != nil {
+				out.Err = "detour mark dead: " + err.Error()
+				return
+			}
+		} else if _, err := base.CancelMessages(queue.MessageCancelRequest{IDs: []string{m.ID}}); err != nil {
+			out.Err = "detour cancel: " + err.Error()
+			return
+		}
+		detoured = append(detoured, m)
+	}
+	for w := 0; w < c.Warmup; w += 100 {
+		var envs []queue.Envelope
+		for j := w; j < w+100 && j < c.Warmup; j++ {
+			envs = append(envs, queue.Envelope{ID: fmt.Sprintf("warm%05d", j), Route: "/warm", Target: "pull", Payload: []byte("w")})
+		}
+		for _, e := range envs {
+			if err := base.Enqueue(e); err != nil {
+				out.Err = "warm-up enqueue: " + err.Error()
+				return
+			}
+		}
+		resp, err := base.Dequeue(queue.DequeueRequest{Route: "/warm", Batch: 100, LeaseTTL: time.Minute})
+		if err != nil {
+			out.Err = "warm-up dequeue: " + err.Error()
+			return
+		}
+		for _, it := range resp.Items {
+			_ = base.Ack(it.LeaseID)
+		}
+		_, _ = base.Dequeue(queue.DequeueRequest{Route: "/warm", Batch: 1, LeaseTTL: time.Minute}) // an idle poll
+	}
+	for _, m := range detoured {
+		var err error
+		switch m.Detour {
+		case "dead-requeue":
+			_, err = base.RequeueDead(queue.DeadRequeueRequest{IDs: []string{m.ID}})
+		case "cancel-resume":
+			_, err = base.ResumeMessages(queue.MessageResumeRequest{IDs: []string{m.ID}})
+		default:
+			_, err = base.RequeueMessages(queue.MessageRequeueRequest{IDs: []string{m.ID}})
+		}
+		if err != nil {
+			out.Err = "detour " + m.Detour + ": " + err.Error()
+			return
+		}
+		script[m.ID] = m
+	}
+	for _, m := range c.Messages {
+		if m.Detour != "" {
+			continue
+		}
 		script[m.ID] = m
 		url := "http://elsewhere.invalid/h"
 		if m.Target >= 0 && m.Target < len(targets) {
@@ -307,7 +381,7 @@ func dlRunCase(dir string, idx int, c dlCase) (out dlOut) {
 	del.mu.Lock()
 	out.Sends = append([]dlSend(nil), del.sends...)
 	del.mu.Unlock()
-	resp, err := base.ListMessages(queue.MessageListRequest{Limit: 1000})
+	resp, err := base.ListMessages(queue.MessageListRequest{Route: "/r", Limit: 1000})
 	if err != nil {
 		out.Err = "list: " + err.Error()
 		return
